@@ -7,7 +7,10 @@ from . import common, relmodel, sqlmodel, templates
 from .prog import Env, IllTyped, build, cols_of, fmt, ops_of, pyeval
 from .relmodel import Slot, Tab
 
-LEAVES = {"X": ("a", "b", "v"), "Y": ("a", "b", "v"), "Z": ("a", "d"), "I": ()}  # I: the engine's join-identity relation
+LEAVES = {"X": ("a", "b", "v"), "Y": ("a", "b", "v"), "Z": ("a", "d"), "I": (),
+          # P and Q have the same columns, created in different orders; the tags a and i collide in small hash tables, so
+          # the two frozensets iterate in different orders (UNION is positional)
+          "P": ("a", "i"), "Q": ("i", "a")}  # I: the engine's join-identity relation
 LEAFCOLS = dict(LEAVES)
 A, B, V, D = ("ref", "a"), ("ref", "b"), ("ref", "v"), ("ref", "d")
 
@@ -147,6 +150,9 @@ def nested_programs(tier, hi):
     progs += [("join", I, X, K), ("join", X, I, K), ("join", X, I, None), ("join", I, ("sel", X, K), ("lt", A, B)),
               ("dedup", ("join", ("proj", X, ("a",)), I, K)), ("join", ("join", X, I, K), Z, None), ("join", X, I, ("plit", False)),
               ("chain", ("join", X, I, K), Y)]
+    P, Q = ("leaf", "P"), ("leaf", "Q")
+    progs += [("chain", P, Q), ("chain", Q, P), ("dedup", ("chain", P, Q)), ("chain", ("sel", P, K), Q),
+              ("proj", ("chain", P, Q), ("a",)), ("chain", ("proj", X, ("a",)), ("proj", Q, ("a",))), ("join", ("chain", P, Q), Z, None)]
     return [(p, {"$k": [None, None]} if "$k" in repr(p) else {}, []) for p in progs]
 
 
@@ -213,6 +219,8 @@ BATTERY = {
     "X": [{"a": 1, "b": 1, "v": 5}, {"a": 1, "b": 2, "v": 5}, {"a": 2, "b": 1, "v": 7}, {"a": 1, "b": 1, "v": 5}],
     "Y": [{"a": 1, "b": 1, "v": 5}, {"a": 2, "b": 2, "v": 7}, {"a": 3, "b": 1, "v": 9}],
     "Z": [{"a": 1, "d": 2}, {"a": 2, "d": 1}, {"a": 1, "d": 3}, {"a": 4, "d": 0}],
+    "P": [{"a": 1, "i": 10}, {"a": 2, "i": 20}],
+    "Q": [{"a": 3, "i": 30}, {"a": 1, "i": 10}],
 }
 
 
